@@ -188,7 +188,8 @@ pub fn build(events: &[Event], view: &WireView, real_is_initiator: bool, min_seg
             }
             // loss events as the sender sees them
             if (is_dup || pk.sack().is_some()) && had_outstanding {
-                after_first_loss = true;
+                // a possible loss episode for the window rule (recovery may transmit on its own
+                // accounting); a loss *event* is only what the sender acts on: a retransmission
                 if loss_episode_until.is_none() {
                     loss_episode_until = Some(max_idx);
                 }
